@@ -66,6 +66,9 @@ package message
 //@   loop 1 invariant io_strict: rdTotal == old(rdTotal) ==> viewLen(m) == old(viewLen(m))
 //@   loop 1 invariant consumes_nothing: bufConsumed == old(bufConsumed)
 //@   loop 1 invariant frame_paid: rdTotal == old(rdTotal) && viewLen(m) == old(viewLen(m)) && m.isEOM == old(m.isEOM) && m.finished == old(m.finished) || viewLen(m) - old(viewLen(m)) + 5 <= rdTotal - old(rdTotal)
+// Every frame the loop reads - empty ones included - decides whether the message has ended: the reader never goes on to
+// the next frame (which belongs to the next message) after one that carried the end flag (C01: boundaries survive).
+//@   loop 1 iteration end_flag_of_every_frame_recorded: [C01 C02] m.isEOM == isEOM
 //@   ensures enough: err == nil ==> viewLen(m) >= needed
 //@   ensures frame_paid: [C13] (err == nil || err == io.EOF) && old(viewLen(m)) < needed && !old(m.isEOM) ==> viewLen(m) - old(viewLen(m)) + 5 <= rdTotal - old(rdTotal)
 //@   ensures eof_flagged: [C13] err == io.EOF ==> m.finished
@@ -122,6 +125,8 @@ package message
 //@   ensures exact1: [C14] bufConsumed == old(bufConsumed) + ite(err == nil, 1, 0)
 //@   ensures inv_kept: msgInv(m)
 //@   ensures buf_own: ref(m.buffer.buf) == old(ref(m.buffer.buf)) || fresh(m.buffer.buf)
+//@   ensures accepts_what_is_there: [C14] old(viewLen(m)) >= 1 ==> err == nil
+//@   ensures rejects_only_when_a_read_failed: [C14] err != nil ==> calleefailed
 
 //@ func (*Message).GetInt (m, ctx) (result, err)
 //@   props C14 C13 C01
@@ -134,6 +139,8 @@ package message
 //@   ensures exact8: [C14] bufConsumed == old(bufConsumed) + ite(err == nil, 8, 0)
 //@   ensures inv_kept: msgInv(m) && m.buffer == old(m.buffer) && m.stream == old(m.stream)
 //@   ensures buf_own: ref(m.buffer.buf) == old(ref(m.buffer.buf)) || fresh(m.buffer.buf)
+//@   ensures accepts_what_is_there: [C14] old(viewLen(m)) >= 8 ==> err == nil
+//@   ensures rejects_only_when_a_read_failed: [C14] err != nil ==> calleefailed
 
 //@ func (*Message).GetInt32 (m, ctx) (result, err)
 //@   props C14 C13
@@ -146,6 +153,8 @@ package message
 //@   ensures exact8: [C14] bufConsumed == old(bufConsumed) + ite(err == nil, 8, 0)
 //@   ensures inv_kept: msgInv(m) && m.buffer == old(m.buffer) && m.stream == old(m.stream)
 //@   ensures buf_own: ref(m.buffer.buf) == old(ref(m.buffer.buf)) || fresh(m.buffer.buf)
+//@   ensures accepts_what_is_there: [C14] old(viewLen(m)) >= 8 ==> err == nil
+//@   ensures rejects_only_when_a_read_failed: [C14] err != nil ==> calleefailed
 
 //@ func (*Message).GetInt64 (m, ctx) (result, err)
 //@   props C14
@@ -154,6 +163,8 @@ package message
 //@   ensures value: err == nil && old(viewLen(m)) >= 8 ==> result == s64(old(viewBE64(m, 0))) && viewLen(m) == old(viewLen(m)) - 8
 //@   ensures inv_kept: msgInv(m)
 //@   ensures buf_own: ref(m.buffer.buf) == old(ref(m.buffer.buf)) || fresh(m.buffer.buf)
+//@   ensures accepts_what_is_there: [C14] old(viewLen(m)) >= 8 ==> err == nil
+//@   ensures rejects_only_when_a_read_failed: [C14] err != nil ==> calleefailed
 
 //@ func (*Message).GetUint32 (m, ctx) (result, err)
 //@   props C14
@@ -162,6 +173,8 @@ package message
 //@   ensures value: err == nil && old(viewLen(m)) >= 8 ==> result == uint32(s64(old(viewBE64(m, 0)))) && viewLen(m) == old(viewLen(m)) - 8
 //@   ensures inv_kept: msgInv(m)
 //@   ensures buf_own: ref(m.buffer.buf) == old(ref(m.buffer.buf)) || fresh(m.buffer.buf)
+//@   ensures accepts_what_is_there: [C14] old(viewLen(m)) >= 8 ==> err == nil
+//@   ensures rejects_only_when_a_read_failed: [C14] err != nil ==> calleefailed
 
 //@ func (*Message).PutChar
 //@   props C14 C01
@@ -269,7 +282,12 @@ package message
 
 //@ pred firstNulAt(m, k) = 0 <= k && k < viewLen(m) && viewAt(m, k) == 0 && forall i :: 0 <= i && i < k ==> viewAt(m, i) != 0
 
+// (completeness, C14/C08: a string is refused only where a read failed or its length prefix is negative)
 //@ func (*Message).GetString (m, ctx) (result, err)
+//@   ensures rejection_has_a_cause: [C14 C08] err != nil ==> calleefailed || err == lastminted
+//@   assert before call fmt.Errorf negative_length_only: [C14 C08] length < 0
+//@   assert before deepcall fmt.Errorf rejection_in_a_helper_has_a_cause: [C14 C08] calleefailed
+//@   callcount [C14 C08] no_other_error_constructor: 0 errors.New
 //@   props C13 C14 C08
 //@   requires inv: [typeinv] msgInv(m)
 //@   assigns @msgRead
@@ -374,6 +392,8 @@ package message
 //@   ensures value: err == nil && old(viewLen(m)) >= 16 ==> result == ldexpR(real(fi) / real(2147483647), ex) && viewLen(m) == old(viewLen(m)) - 16
 //@   ensures exact16: bufConsumed == old(bufConsumed) + ite(err == nil, 16, 0) || (err != nil && bufConsumed == old(bufConsumed) + 8)
 //@   ensures inv_kept: msgInv(m)
+//@   ensures accepts_what_is_there: [C14] old(viewLen(m)) >= 16 ==> err == nil
+//@   ensures rejects_only_when_a_read_failed: [C14] err != nil ==> calleefailed
 
 // decode(encode(v)) is within the format's 31-bit precision. With v = f * 2^e (Frexp, |f| < 1), fi = trunc(f * F) (PutDouble#items)
 // and decode = fi / F * 2^e (GetDouble#value with Ldexp(x, e) = x * 2^e):  |decode - v| <= 2^e / F.  p stands for 2^e > 0.
@@ -497,6 +517,14 @@ package message
 //@   assert before call Message).GetString #3 uncapped_only: maxSize <= 0
 //@   assert before call Message).getSecretString #1 uncapped_only: maxSize <= 0
 //@   assert after call Message).GetStringWithMaxSize #1 counted: true
+// Completeness of the receiver (C08: what a compliant sender wrote is what the receiver returns): the reader rejects only
+// when one of the calls it made failed or the caller's byte budget is used up, and the error it returns is the one it
+// built at that point. A well-formed ad within budget is therefore never refused by this function itself.
+//@   loop 1 invariant no_failure_ignored: [C08] !calleefailed
+//@   assert before call fmt.Errorf rejection_has_a_cause: [C08] calleefailed || (maxSize > 0 && totalBytesRead >= maxSize)
+//@   assert before deepcall fmt.Errorf rejection_in_a_helper_has_a_cause: [C08] calleefailed || (maxSize > 0 && totalBytesRead >= maxSize)
+//@   callcount [C08] no_other_error_constructor: 0 errors.New
+//@   ensures rejection_is_the_reported_cause: [C08] err != nil ==> err == lastminted
 
 //@ func parseAndInsertExpression (ad, exprStr) (err)
 //@   props C13 C08
@@ -535,6 +563,20 @@ package message
 //@   requires inv: [typeinv] msgInv(m)
 //@   loop 1 invariant inv: msgInv(m)
 //@   loop 1 invariant progress: [C13] 0 <= i && i <= (rdTotal - viewLen(m)) - (old(rdTotal) - old(viewLen(m)))
+// Completeness (C08): the raw reader refuses an ad only when a read failed, an expression is empty (the message ended
+// early) or a type slot does not hold a type name - never for a reason of its own such as how much is buffered so far.
+//@   loop 1 invariant no_failure_ignored: [C08] !calleefailed
+//@   callcount [C08] no_other_error_constructor: 0 errors.New
+//@   assert before call fmt.Errorf every_rejection_has_a_cause: [C08] calleefailed || exprStr == "" || myType != "" || targetType != ""
+//@   assert before deepcall fmt.Errorf rejection_in_a_helper_has_a_cause: [C08] calleefailed
+//@   assert before call fmt.Errorf #1 read_failed: [C08] calleefailed
+//@   assert before call fmt.Errorf #2 secret_read_failed: [C08] calleefailed
+//@   assert before call fmt.Errorf #3 empty_expression: [C08] exprStr == ""
+//@   assert before call fmt.Errorf #4 mytype_read_failed: [C08] calleefailed
+//@   assert before call fmt.Errorf #5 mytype_not_a_name: [C08] myType != "" && !lastres_isTypeName
+//@   assert before call fmt.Errorf #6 targettype_read_failed: [C08] calleefailed
+//@   assert before call fmt.Errorf #7 targettype_not_a_name: [C08] targetType != "" && !lastres_isTypeName
+//@   ensures rejection_is_the_reported_cause: [C08] err != nil ==> err == lastminted
 
 //@ func (*Message).SkipClassAdRaw (m, ctx) (err)
 //@   props C13 C08
@@ -542,6 +584,17 @@ package message
 //@   let P0 = old(rdTotal) - old(viewLen(m))
 //@   loop 1 invariant inv: msgInv(m)
 //@   loop 1 invariant progress: [C13] 0 <= i && (m.finished && viewLen(m) == 0 ==> i <= (rdTotal - viewLen(m)) - P0 + 1) && (!(m.finished && viewLen(m) == 0) ==> i <= (rdTotal - viewLen(m)) - P0)
+// Completeness (C08): the skipping reader refuses only when a read failed or the message has ended before the count.
+//@   loop 1 invariant no_failure_ignored: [C08] !calleefailed
+//@   callcount [C08] no_other_error_constructor: 0 errors.New
+//@   assert before call fmt.Errorf every_rejection_has_a_cause: [C08] calleefailed || (m.finished && viewLen(m) == 0)
+//@   assert before deepcall fmt.Errorf rejection_in_a_helper_has_a_cause: [C08] calleefailed || (m.finished && viewLen(m) == 0)
+//@   assert before call fmt.Errorf #1 count_read_failed: [C08] calleefailed
+//@   assert before call fmt.Errorf #2 ended_early: [C08] lastres_Finished
+//@   assert before call fmt.Errorf #3 skip_failed: [C08] calleefailed
+//@   assert before call fmt.Errorf #4 mytype_skip_failed: [C08] calleefailed
+//@   assert before call fmt.Errorf #5 targettype_skip_failed: [C08] calleefailed
+//@   ensures rejection_is_the_reported_cause: [C08] err != nil ==> err == lastminted
 
 //@ func isTypeName (s) (result)
 //@   props C13 C08
